@@ -104,6 +104,7 @@ func reimportHistory(ws map[string]*tracew.Writer, seed int64, run, depth int) e
 	}
 	var removed []int
 	for b := 0; b < depth; b++ {
+		lg.forceExit = depth >= 20 && b == depth-8 // late in every history: a clean exit, exported three blocks later (see below)
 		lp := lg.plan()
 		bp, err := bg.plan("")
 		if err != nil {
@@ -163,16 +164,18 @@ func reimportHistory(ws map[string]*tracew.Writer, seed int64, run, depth int) e
 			return err
 		}
 		s.afterImport = false
-		// exports are taken at random heights, more often from states with validators waiting for a slot (Pending, with power) or jailed
+		// exports are taken at random heights, more often from states with validators waiting for a slot (Pending, with power), jailed,
+		// or outside the set with unclaimed rewards
 		rich := false
 		if lst, err := project.Locking(s.C); err == nil {
 			for _, v := range lst.Val {
-				if v.Exists && ((v.Status == "Pending" && v.Power > 0) || v.Status == "Downgrade") {
+				if v.Exists && ((v.Status == "Pending" && v.Power > 0) || v.Status == "Downgrade" ||
+					(v.Status != "Active" && (v.Reward > 0 || v.GasReward > 0))) { // ... or a validator outside the set still holds unclaimed rewards
 					rich = true
 				}
 			}
 		}
-		if r.Intn(6) == 0 || b == depth-1 || (rich && r.Intn(3) == 0) {
+		if r.Intn(6) == 0 || b == depth-1 || (depth >= 20 && b == depth-5) || (rich && r.Intn(3) == 0) {
 			nc, err := s.exportImport(ws, emitX)
 			if err != nil {
 				return err
